@@ -513,6 +513,11 @@ fn gen_children(pool: &mut Pool, fr: &Freedoms, depth: usize, budget: &mut usize
                 let ext = [b"TXT", b"BIN", b"A  "][pool.below(3) as usize];
                 short[8..11].copy_from_slice(ext);
             }
+            // an alias that begins with the character 0xE5 is stored with the lead byte 0x05; the long-name slots carry
+            // the checksum of the bytes as stored
+            if fr.lead_05 && pool.chance(12) {
+                short[0] = 0x05;
+            }
             visible = units;
         }
         let folded = crate::refdec::fold(&String::from_utf16_lossy(&visible));
